@@ -33,6 +33,20 @@ def classify(msg):
 
 
 def run(path, rlimit=None, seed=None, timeout=900, extra=None):
+    """first attempt in one solver process (fast); if that does not come back - after a FAILED query the shared Z3 context can
+    spin without consuming its resource limit (seen on unit dbfacade with a broken get_next_block_height) - a second attempt
+    gives every function a solver process of its own (-V spinoff-all), which is slower but isolates the failure"""
+    first = int(os.environ.get("VERIF_FIRST_TIMEOUT", "150"))
+    r = _run(path, rlimit, seed, min(first, timeout), extra)
+    if r.get("status") == "timeout":
+        r2 = _run(path, rlimit, seed, timeout, (extra or []) + ["-V", "spinoff-all"])
+        r2["wall_s"] = r2.get("wall_s", 0) + r.get("wall_s", 0)
+        r2["retried_spinoff"] = True
+        return r2
+    return r
+
+
+def _run(path, rlimit=None, seed=None, timeout=900, extra=None):
     """returns dict: ok(bool run completed), verified, errors, functions{name:{success,time_us,rlimit}},
     diags[list], status in {verified, failed, compile-error, timeout, crash}"""
     cmd = ["verus", os.path.basename(path), "--output-json", "--time", "--multiple-errors", "8",
@@ -44,11 +58,21 @@ def run(path, rlimit=None, seed=None, timeout=900, extra=None):
     if extra:
         cmd += extra
     t0 = time.time()
+    # own process group: on a timeout the solver processes verus has spawned are killed with it (an orphaned z3 spins for ever)
+    import signal
+    import types
+    pr = subprocess.Popen(cmd, cwd=os.path.dirname(path), stdout=subprocess.PIPE, stderr=subprocess.PIPE, text=True, start_new_session=True)
     try:
-        p = subprocess.run(cmd, cwd=os.path.dirname(path), capture_output=True, text=True, timeout=timeout)
+        out, err = pr.communicate(timeout=timeout)
     except subprocess.TimeoutExpired:
+        try:
+            os.killpg(pr.pid, signal.SIGKILL)
+        except Exception:
+            pr.kill()
+        pr.communicate()
         return {"status": "timeout", "cmd": " ".join(cmd), "wall_s": time.time() - t0, "diags": [], "functions": {},
                 "verified": 0, "errors": 0, "raw_err": "timeout after %ds" % timeout}
+    p = types.SimpleNamespace(stdout=out, stderr=err, returncode=pr.returncode)
     wall = time.time() - t0
     res = {"cmd": " ".join(cmd), "wall_s": wall, "diags": [], "functions": {}, "verified": 0, "errors": 0,
            "raw_err": "", "smt_ms": 0}
